@@ -32,6 +32,10 @@ use simkit::{Ctx, Rng, Scenario, Violation, entry};
 pub const AVOID_KNOWN: &[&str] = &[];
 pub const KEY_LATE: &str = "c14-late-spawn-never-resolves";
 pub const KEY_RACE: &str = "c14-shutdown-race-unsignalled-workers";
+/// A spawn made while another worker's notification is still pending wakes nobody (`notify(1)` is
+/// not additive): two back-to-back spawns on two idle workers leave one worker asleep next to a
+/// queued task; if the first task needs the second, neither handle ever resolves.
+pub const KEY_IDLE_PAIR: &str = "c14-second-spawn-wakes-nobody";
 
 pub fn avoid(key: &str) -> bool {
     AVOID_KNOWN.contains(&key)
@@ -64,6 +68,7 @@ fn main() {
             entry::<S>("C14", "faulty", "yields at sim points, panicking tasks, late spawns when not avoided").isolated(),
             entry::<S>("C14", "known-c14-late-spawn-never-resolves", "directed: spawn through a Scheduler after drop(pool) returned").isolated(),
             entry::<S>("C14", "known-c14-shutdown-race-unsignalled-workers", "directed: first spawn held across the shutdown signal loop").isolated(),
+            entry::<S>("C14", "known-c14-second-spawn-wakes-nobody", "directed shape: two back-to-back spawns on two idle workers, the first task needs the second").isolated(),
         ],
     )
 }
